@@ -55,7 +55,9 @@ def _case(draw):
             'N': draw(st.integers(2, 4)), 'style': draw(gens.style_strategy()),
             'mem_format': draw(st.sampled_from(['contiguous', 'contiguous', 'channels_last'])),
             'accum': draw(st.sampled_from([1, 1, 2, 3])), 'autocast': draw(st.sampled_from([False, False, False, True])),
-            'model_cl': draw(st.sampled_from([False, False, False, True])), 'program': ops}
+            'model_cl': draw(st.sampled_from([False, False, False, True])),
+            # "main grads": gradients kept in a wider dtype than the parameters (param.grad_dtype = None), promoted after backward
+            'wide_grads': draw(st.sampled_from([False, False, False, True])), 'program': ops}
 
 
 def _mid_eval(models, case, seed, pd):
@@ -85,6 +87,12 @@ def _kfac_only_run(case, program, kw, with_mid_eval=True):
         warnings.simplefilter('ignore')
         pre = KFACPreconditioner(model, **kw)
     reg_names = sorted(pre.state_dict()['layers'])
+    wide = None
+    if case.get('wide_grads') and hasattr(next(iter(model.parameters()), None), 'grad_dtype'):
+        wide = {torch.float32: torch.float64, torch.bfloat16: torch.float32}.get(pd)
+        if wide is not None:
+            for p_ in model.parameters():
+                p_.grad_dtype = None
     scale = case['loss_scale'] or 1.0
     accum = case.get('accum', 1)
     out = []
@@ -112,6 +120,8 @@ def _kfac_only_run(case, program, kw, with_mid_eval=True):
             continue
         for p in model.parameters():
             if p.grad is not None:
+                if wide is not None:
+                    p.grad = p.grad.to(wide)
                 p.grad /= (scale * accum)
         pre.step()
         repr(pre)
@@ -139,8 +149,8 @@ class C10(Prop):
                    'bit-identity with the twin relies on deterministic CPU kernels (torch.use_deterministic_algorithms is not required for these ops)']
     examples = {'quick': 400, 'thorough': 1200}
     shards = {'quick': 4, 'thorough': 16}
-    required_labels = {'quick': ['nontrivial=True', 'param_dtype=bfloat16', 'param_dtype=float64', 'residual=True', 'frozen=True', 'skipped=True', 'mem_format=channels_last', 'factor_dtype_is_param_dtype=True', 'mid_iteration_eval=True', 'autocast=True', 'mixed_modes=True', 'model_channels_last=True'],
-                       'thorough': ['nontrivial=True', 'param_dtype=bfloat16', 'param_dtype=float64', 'residual=True', 'frozen=True', 'skipped=True', 'mem_format=channels_last', 'factor_dtype_is_param_dtype=True', 'mid_iteration_eval=True', 'autocast=True', 'mixed_modes=True', 'model_channels_last=True']}
+    required_labels = {'quick': ['nontrivial=True', 'param_dtype=bfloat16', 'param_dtype=float64', 'residual=True', 'frozen=True', 'skipped=True', 'mem_format=channels_last', 'factor_dtype_is_param_dtype=True', 'mid_iteration_eval=True', 'autocast=True', 'mixed_modes=True', 'model_channels_last=True', 'wide_grads=True'],
+                       'thorough': ['nontrivial=True', 'param_dtype=bfloat16', 'param_dtype=float64', 'residual=True', 'frozen=True', 'skipped=True', 'mem_format=channels_last', 'factor_dtype_is_param_dtype=True', 'mid_iteration_eval=True', 'autocast=True', 'mixed_modes=True', 'model_channels_last=True', 'wide_grads=True']}
 
     def strategy(self, tier):
         return _case()
@@ -157,6 +167,13 @@ class C10(Prop):
             # the whole model converted to channels_last (conv weights and their gradients in NHWC storage), as recommended with AMP
             model = model.to(memory_format=torch.channels_last)
             twin = twin.to(memory_format=torch.channels_last)
+        wide = None
+        if case.get('wide_grads') and hasattr(next(iter(model.parameters()), None), 'grad_dtype'):
+            wide = {torch.float32: torch.float64, torch.bfloat16: torch.float32}.get(pd)
+            if wide is not None:
+                for m_ in (model, twin):
+                    for p_ in m_.parameters():
+                        p_.grad_dtype = None
         pats = case['skip_layers']
         if not any(p.requires_grad for p in model.parameters()):
             return passed(False, {'all_frozen': True})    # nothing trainable: no backward pass possible
@@ -206,6 +223,7 @@ class C10(Prop):
         use_amp = bool(case.get('autocast')) and case['param_dtype'] == 'float32'
         amp = (lambda: torch.autocast('cpu', dtype=torch.bfloat16)) if use_amp else contextlib.nullcontext
         labels['autocast'] = use_amp
+        labels['wide_grads'] = wide is not None
         labels['model_channels_last'] = bool(case.get('model_cl')) and any(L['t'] == 'conv' for L in case['spec']['layers'])
         for i, op in enumerate(case['program']):
             train = op['op'] == 'train'
@@ -278,6 +296,11 @@ class C10(Prop):
                         if (a is None) != (b is None) or (a is not None and not torch.equal(a, b)):
                             return violation(f'op {i}: eval-mode pass changed factor {f} of {n}', 'eval-changed-state', labels=labels)
                 continue
+            if wide is not None:
+                for m in (model, twin):
+                    for p in m.parameters():
+                        if p.grad is not None:
+                            p.grad = p.grad.to(wide)
             if scale * accum != 1.0:
                 for m in (model, twin):
                     for p in m.parameters():
